@@ -5,6 +5,8 @@ SCPPacket.  Stub: an echo peer that answers every delivered request copy with
 the request's sequence number and a token naming the command, plus the fault
 decisions of the network / machine fault policy.
 """
+import os
+
 from rigsim.core import SimAbort
 from rigsim.net import SimNetwork, FaultPolicy
 from rigsim.seams import Seams, install_net, rig_module
@@ -90,6 +92,8 @@ class Engine(object):
         self.retx = 0
         self.blackhole = {}      # cmd id -> copies still to swallow
         self.stall_total = 0.0
+        self.last_new_seq = None
+        self.outstanding = {}
 
     # -- set-up ------------------------------------------------------------
     def setup(self):
@@ -209,18 +213,23 @@ class Engine(object):
             c.seq = r.seq
             c.raw = payload
             w.trace.ev("tx", cid)
-            for o in self.cur:
-                if o is not c and o.tx_clock and not o.ok_returned and \
-                        o.seq == c.seq:
-                    w.violate("S", "commands %d and %d are outstanding with "
-                              "the same sequence number %d"
-                              % (o.id, cid, c.seq), kind="seq-reuse")
+            o = self.outstanding.get(c.seq)
+            if o is not None and o is not c:
+                w.violate("S", "commands %d and %d are outstanding with "
+                          "the same sequence number %d"
+                          % (o.id, cid, c.seq), kind="seq-reuse")
+            self.outstanding[c.seq] = c
             if c.seq == 0 and cid > 1:
                 w.probe("seq_wrap")
+            if self.last_new_seq is not None and \
+                    c.seq != (self.last_new_seq + 1) & 0xffff:
+                # a sequence number still in use by an outstanding command
+                # was skipped
+                w.probe("seq_skip_outstanding")
+            self.last_new_seq = c.seq
         c.tx_clock.append(clock)
         # W: unanswered commands never exceed the window
-        unanswered = sum(1 for o in self.cur
-                         if o.tx_clock and not o.ok_returned)
+        unanswered = len(self.outstanding)
         if unanswered > self.cur_window:
             w.violate("W", "%d commands unanswered with window %d"
                       % (unanswered, self.cur_window), kind="window")
@@ -242,6 +251,8 @@ class Engine(object):
                     if c.ok_returned:
                         w.probe("dup_reply_ignored")
                     c.ok_returned = True
+                    if self.outstanding.get(c.seq) is c:
+                        del self.outstanding[c.seq]
         elif rc in RETRYABLE:
             w.probe("retryable_discarded")
         else:
@@ -285,7 +296,8 @@ class Engine(object):
             c.cmd = 0
             c.arg2 = c.arg3 = 0
             c.data = b""
-            c.extra = 0.0
+            c.extra = 8.0 if c.id == getattr(self, "long_victim", None) \
+                else 0.0
         else:
             c.x, c.y, c.p = t.draw(256), t.draw(256), t.draw(18)
             c.cmd = CMDS[t.draw(len(CMDS))]
@@ -314,6 +326,7 @@ class Engine(object):
                 if self.tape.chance(0.02):
                     self.blackhole[c.id] = 1 + self.tape.draw(self.n_tries)
         self.cur = cmds
+        self.outstanding = {}     # seq -> command sent and not yet answered
         self.cur_window = 1 if single else window
         self.fatal_seen = None
         retx0 = self.retx
@@ -438,7 +451,8 @@ class Engine(object):
         if not self.policy.any_net() and not any(
                 self.policy.rate(k) for k in
                 ("retryable_rc", "fatal_rc", "host_stall", "clock_jump_fwd",
-                 "clock_jump_back")) and (heal or self.clean):
+                 "clock_jump_back")) and (heal or self.clean) and \
+                getattr(self, "long_victim", None) is None:
             if outcome != "returned":
                 w.violate("L", "no fault is active but the call raised %s"
                           % outcome, kind="healed-failure")
@@ -457,10 +471,13 @@ class Engine(object):
         self.w.ops.append("long burst n=%d" % n)
         first = self.next_id
         victim = first + 3
-        if self.n_tries >= 2:
-            self.blackhole[victim] = self.n_tries - 1
+        # the victim's first copy is swallowed and its time-out is long, so it
+        # stays outstanding while > 65536 other commands use up the numbers
+        self.blackhole[victim] = 1
+        self.long_victim = victim
         before = sum(1 for _ in [0])
-        self.run_burst(n, max(self.window, 8), simple=True)
+        self.run_burst(n, 16, simple=True)
+        self.long_victim = None
         v = self.cmds.get(victim)
         if v is not None and v.ok_returned and len(v.tx_clock) > 1:
             # did the sequence wrap past the victim while it was outstanding?
@@ -477,8 +494,8 @@ class Engine(object):
                 ("retryable_rc", "fatal_rc", "host_stall", "clock_jump_fwd",
                  "clock_jump_back")))
             n_ops = t.op_count(1, 6)
-            do_long = (self.tier == "thorough" and t.seed is not None and
-                       t.seed % 400 == 0)
+            do_long = (self.tier == "thorough" and t.draw(1000) == 0) or \
+                bool(os.environ.get("VERIF_C06_FORCE_LONG"))
             for _ in range(n_ops):
                 t.next_segment()
                 kind = t.weighted([5, 1])
@@ -490,7 +507,7 @@ class Engine(object):
                     self.run_burst(1, 1, single=True)
             if do_long:
                 # timeouts must be long enough for 65536 numbers to be used
-                if self.timeout * self.n_tries >= 2.0 and \
+                if self.n_tries >= 2 and \
                         not self.policy.rates.get("fatal_rc"):
                     self.long_burst()
             # heal: faults off, stale datagrams drained and consumed
